@@ -48,8 +48,10 @@ def run(pid, tier):
     for s in unknown:
         hist.append([("D", "f." + s, b"x")] + ([("A", "e/noext", "to/n", b"z")] if s == "" else [("F", "d/g." + s, b"y"), ("A", "e/h." + s, "to/h." + s, b"z")]))
     # add_file_as of files without any suffix whose whole name reads like one: no suffix, hence the generic type
-    # (file and published name always carry the same suffix here: which of the two decides is not something the property fixes)
     hist.append([("A", "e/css", "css", b"z"), ("A", "e/json", "json", b"j"), ("A", "e/js", "js", b"k"), ("A", "e/svg", "to/svg", b"s")])
+    # add_file_as under a published name whose spelling differs from the file's: "its suffix" is the suffix of the static file, i.e. of
+    # the file that was added (that is also what decides for every other entry point); the published name is free text
+    hist.append([("A", "e/a.css", "style", b"z"), ("A", "e/b.png", "img/logo", b"p"), ("A", "e/c.min.js", "app.js.map", b"m"), ("A", "e/export", "export.json", b"e"), ("A", "e/fav.png", "favicon.ico", b"i")])
     # a stylesheet compiled by add_sass_file is published as <stem>.css: text/css like any other css
     hist.append([("D", "a.css", b"x"), ("S", "scss/m0.scss", "a.css")])
     hist.append([("D", "logo.PNG", b"x"), ("S", "scss/Style.scss", "logo.PNG")])
@@ -101,9 +103,11 @@ def run(pid, tier):
                             oracle_fail.append((h, "generated statics module does not compile against mime 0.3: " + rr["error"][:600], None)); continue
                         if len(rr["types"]) != len(h):
                             oracle_fail.append((h, "mime03: %d entries in STATICS for %d added files" % (len(rr["types"]), len(h)), None)); continue
+                        # a file's type follows the suffix of the file that was added: for the hashed entry points the published name keeps
+                        # that suffix as spelled (<stem>-<hash>.<ext>); for add_file_as the published name is free text, the file's own name decides
+                        as_src = {(op[2].encode() if isinstance(op[2], str) else op[2]): op[1] for op in h if op[0] == "A"}
                         for (name, ty) in rr["types"]:
-                            # the published name keeps the suffix as spelled (hashed names: <stem>-<hash>.<ext>; add_file_as: verbatim)
-                            last = name.decode("utf8", "replace").rsplit("/", 1)[-1]
+                            last = (as_src[name] if name in as_src else name.decode("utf8", "replace")).rsplit("/", 1)[-1]
                             suffix = last.rsplit(".", 1)[-1] if "." in last else ""
                             low = suffix.lower() if suffix.isascii() else None
                             in_table = low in [x for x, _ in t["mime03_rows"]]
